@@ -29,7 +29,7 @@ TECHNIQUE = "runtime monitoring: exhaustive pairwise combination with tree-level
 
 def gen_cases(tier, seed):
     rnd = random.Random(f"C13-{seed}")
-    n = 24 if tier == "quick" else 250
+    n = 24 if tier == "quick" else 140
     cases = []
     for i in range(n):
         wk = rnd.choice(["chain2", "mvchain2", "mvchain2", "fanin2", "chain2", "bchain2", "bchain3", "bchain3", "chain3", "shrink"])
